@@ -24,6 +24,7 @@ type LV struct {
 	A  []*LV    `json:"a,omitempty"`  // elements / map values / struct: [Tags...] / drop: [inner]
 	K  []string `json:"k,omitempty"`  // map keys (parallel to A)
 	KI []int64  `json:"ki,omitempty"` // imap keys; amap: KI[i] used when K[i]==""
+	KR []string `json:"kr,omitempty"` // amap: Go kind of numeric key i ("", int64, int32, uint8, float64)
 }
 
 // Person is the struct representation used by generated bindings.
@@ -216,6 +217,13 @@ func (v *LV) Build(r *Rng) any {
 		}
 		return out
 	case "imap":
+		if v.R == "int64" {
+			out := map[int64]any{}
+			for _, i := range order(len(v.KI)) {
+				out[v.KI[i]] = v.A[i].Build(r)
+			}
+			return out
+		}
 		out := map[int]any{}
 		for _, i := range order(len(v.KI)) {
 			out[int(v.KI[i])] = v.A[i].Build(r)
@@ -225,7 +233,20 @@ func (v *LV) Build(r *Rng) any {
 		out := map[any]any{}
 		for _, i := range order(len(v.K)) {
 			if v.K[i] == "" {
-				out[int(v.KI[i])] = v.A[i].Build(r)
+				var k any = int(v.KI[i])
+				if i < len(v.KR) {
+					switch v.KR[i] {
+					case "int64":
+						k = v.KI[i]
+					case "int32":
+						k = int32(v.KI[i])
+					case "uint8":
+						k = uint8(v.KI[i])
+					case "float64":
+						k = float64(v.KI[i])
+					}
+				}
+				out[k] = v.A[i].Build(r)
 			} else {
 				out[v.K[i]] = v.A[i].Build(r)
 			}
@@ -327,13 +348,17 @@ func genMap(r *Rng, depth, lo, hi int) *LV {
 	n := r.Range(lo, hi)
 	ks := r.Perm(len(keyWords))[:n]
 	v := &LV{}
-	kind := r.weighted([]int{8, 2, 2})
+	kind := r.weighted([]int{8, 2, 2, 1, 1})
 	switch kind {
 	case 0:
 		v.T = "map"
 	case 1:
 		v.T = "imap"
-	default:
+	case 2:
+		v.T = "amap"
+	case 3: // 64-bit ids: large keys that sit close together
+		v.T, v.R = "imap", "int64"
+	default: // numerically equal keys of different Go kinds (as decoded YAML/JSON may give)
 		v.T = "amap"
 	}
 	vals := r.weighted([]int{3, 3, 3})
@@ -354,12 +379,26 @@ func genMap(r *Rng, depth, lo, hi int) *LV {
 		case "map":
 			v.K = append(v.K, keyWords[ki])
 		case "imap":
-			v.KI = append(v.KI, int64(ki*3-4))
-		default:
-			if j%2 == 0 {
-				v.K, v.KI = append(v.K, keyWords[ki]), append(v.KI, 0)
+			if v.R == "int64" {
+				v.KI = append(v.KI, int64(9007199254740993)+int64(ki))
 			} else {
-				v.K, v.KI = append(v.K, ""), append(v.KI, int64(ki))
+				v.KI = append(v.KI, int64(ki*3-4))
+			}
+		default:
+			switch {
+			case kind == 4:
+				v.K, v.KI = append(v.K, ""), append(v.KI, int64(j/3))
+				v.KR = append(v.KR, []string{"", "int64", "float64", "int32", "uint8"}[(j+ki)%5])
+				// distinct (kind, value) pairs only
+				for q := 0; q < j; q++ {
+					if v.KI[q] == v.KI[j] && v.KR[q] == v.KR[j] {
+						v.KI[j] += 100 + int64(j)
+					}
+				}
+			case j%2 == 0:
+				v.K, v.KI, v.KR = append(v.K, keyWords[ki]), append(v.KI, 0), append(v.KR, "")
+			default:
+				v.K, v.KI, v.KR = append(v.K, ""), append(v.KI, int64(ki)), append(v.KR, "")
 			}
 		}
 	}
